@@ -52,7 +52,17 @@ def run_one(m):
                 return res
             edits = []
         else:
-            edits = m.get("edits") or [{"file": m["file"], "find": m["find"], "replace": m["replace"]}]
+            edits = m.get("edits") or ([{"file": m["file"], "find": m["find"], "replace": m["replace"]}] if m.get("file") else [])
+        for sd in m.get("seds") or []:
+            p = os.path.join(dst, sd["file"])
+            s = open(p).read()
+            if sd["from"] not in s:
+                res["status"] = "SKIP-ANCHOR"
+                res["detail"] = "%s: %r not found" % (sd["file"], sd["from"])
+                return res
+            open(p, "w").write(s.replace(sd["from"], sd["to"]))
+        if m.get("seds"):
+            edits = m.get("edits") or []
         for e in edits:
             p = os.path.join(dst, e["file"])
             s = open(p).read()
@@ -78,7 +88,10 @@ def run_one(m):
             if r.returncode == 1:
                 rc_any = 1
                 lines += [l for l in r.stdout.splitlines() if l.startswith(("VIOLATION ", "UNDECIDED "))]
-        res["status"] = "DETECTED" if rc_any else "MISSED"
+        if m.get("expect") == "pass":
+            res["status"] = "FALSE-ALARM" if rc_any else "SILENT-OK"
+        else:
+            res["status"] = "DETECTED" if rc_any else "MISSED"
         res["detail"] = [l[:300] for l in lines if not l.startswith("VIOLATION property=")][:6]
         return res
     finally:
@@ -100,7 +113,7 @@ def main():
         for r in ex.map(run_one, ms):
             results.append(r)
             print("%-12s %-55s %s" % (r["status"], r["id"], r.get("suite", "")))
-            if a.v or r["status"] in ("MISSED", "INTERNAL", "SKIP-ANCHOR"):
+            if a.v or r["status"] in ("MISSED", "INTERNAL", "SKIP-ANCHOR", "FALSE-ALARM", "NO-COMPILE"):
                 d = r.get("detail")
                 if d:
                     print("      ", d if isinstance(d, str) else "\n       ".join(d))
